@@ -685,11 +685,15 @@ func (c *Conn) setR(t time.Time) {
 	}
 	if !t.IsZero() {
 		h := c.rd
-		d := time.Until(t)
-		if d < 0 {
-			d = 0
+		wake := func() { h.mu.Lock(); h.mu.Unlock(); h.cond.Broadcast() }
+		if d := time.Until(t); d > 0 {
+			c.rdt = time.AfterFunc(d, wake)
+		} else {
+			// already due: no timer (a zero-duration AfterFunc created by many
+			// goroutines of one synctest bubble at the same instant has crashed
+			// the go1.26.8 runtime in (*timer).modify)
+			go wake()
 		}
-		c.rdt = time.AfterFunc(d, func() { h.mu.Lock(); h.mu.Unlock(); h.cond.Broadcast() })
 	}
 }
 
@@ -701,11 +705,15 @@ func (c *Conn) setW(t time.Time) {
 	}
 	if !t.IsZero() {
 		h := c.wr
-		d := time.Until(t)
-		if d < 0 {
-			d = 0
+		wake := func() { h.mu.Lock(); h.mu.Unlock(); h.cond.Broadcast() }
+		if d := time.Until(t); d > 0 {
+			c.wdt = time.AfterFunc(d, wake)
+		} else {
+			// already due: no timer (a zero-duration AfterFunc created by many
+			// goroutines of one synctest bubble at the same instant has crashed
+			// the go1.26.8 runtime in (*timer).modify)
+			go wake()
 		}
-		c.wdt = time.AfterFunc(d, func() { h.mu.Lock(); h.mu.Unlock(); h.cond.Broadcast() })
 	}
 }
 
